@@ -12,3 +12,70 @@ pub open spec fn bounded_bytes_enc(b: Seq<u8>) -> Seq<Tok> {
     if b.len() <= 64 { seq![Tok::Bytes(b)] }
     else { seq![Tok::Raw(seq![0x5fu8])] + chunk_toks(b, 0) + seq![Tok::Special(CBORSpecial::Break)] }
 }
+// ---- what the bounded-bytes reader accepts and yields, on tokens -------------------------------------------------------------
+/// chunks from index i on: definite byte strings of at most 64 bytes, closed by a break
+pub open spec fn chunks_ok(rem: Seq<Tok>, i: int) -> bool decreases rem.len() - i {
+    if i < 0 || i >= rem.len() { false }
+    else if rem[i] == Tok::Special(CBORSpecial::Break) { true }
+    else { rem[i] is Bytes && rem[i]->Bytes_0.len() <= 64 && chunks_ok(rem, i + 1) }
+}
+/// (collected content, index just after the break)
+pub open spec fn chunks_dec(rem: Seq<Tok>, i: int) -> (Seq<u8>, int) decreases rem.len() - i {
+    if i < 0 || i >= rem.len() || !(rem[i] is Bytes) { (Seq::empty(), i + 1) }
+    else { let d = chunks_dec(rem, i + 1); (rem[i]->Bytes_0 + d.0, d.1) }
+}
+pub open spec fn bb_accepts(rem: Seq<Tok>) -> bool {
+    rem.len() > 0 && ((rem[0] is Bytes && rem[0]->Bytes_0.len() <= 64) || (rem[0] == indef_bytes_start() && chunks_ok(rem, 1)))
+}
+pub open spec fn bb_decode(rem: Seq<Tok>) -> (Seq<u8>, int) {
+    if rem[0] is Bytes { (rem[0]->Bytes_0, 1) } else { chunks_dec(rem, 1) }
+}
+// ---- C01 for bounded bytes: the reader accepts what the writer wrote and yields the original byte string, whatever follows ----
+pub proof fn lemma_chunks_inverse(b: Seq<u8>, pos: int, rem: Seq<Tok>, i: int)
+    requires 0 <= pos <= b.len(), 0 <= i, i + chunk_toks(b, pos).len() < rem.len(),
+             rem.subrange(i, i + chunk_toks(b, pos).len()) == chunk_toks(b, pos),
+             rem[i + chunk_toks(b, pos).len()] == Tok::Special(CBORSpecial::Break),
+    ensures chunks_ok(rem, i), chunks_dec(rem, i).0 == b.subrange(pos, b.len() as int), chunks_dec(rem, i).1 == i + chunk_toks(b, pos).len() + 1
+    decreases b.len() - pos
+{
+    let ct = chunk_toks(b, pos);
+    if pos >= b.len() {
+        assert(ct.len() == 0);
+        assert(b.subrange(pos, b.len() as int) =~= Seq::<u8>::empty());
+    } else {
+        let e = if b.len() - pos < 64 { b.len() as int } else { pos + 64 };
+        let tail = chunk_toks(b, e);
+        assert(ct == seq![Tok::Bytes(b.subrange(pos, e))] + tail);
+        assert(ct.len() == 1 + tail.len());
+        assert(rem[i] == rem.subrange(i, i + ct.len())[0]);
+        assert(rem[i] == Tok::Bytes(b.subrange(pos, e)));
+        assert(rem.subrange(i + 1, i + 1 + tail.len()) =~= tail) by {
+            assert forall|k: int| 0 <= k < tail.len() implies rem.subrange(i + 1, i + 1 + tail.len())[k] == tail[k] by {
+                assert(rem.subrange(i, i + ct.len())[k + 1] == ct[k + 1]);
+            }
+        }
+        lemma_chunks_inverse(b, e, rem, i + 1);
+        assert(b.subrange(pos, e) + b.subrange(e, b.len() as int) =~= b.subrange(pos, b.len() as int));
+    }
+}
+pub proof fn lemma_bb_roundtrip(b: Seq<u8>, rest: Seq<Tok>)
+    ensures bb_accepts(bounded_bytes_enc(b) + rest),
+            bb_decode(bounded_bytes_enc(b) + rest).0 == b,
+            (bounded_bytes_enc(b) + rest).skip(bb_decode(bounded_bytes_enc(b) + rest).1) == rest,
+{
+    let enc = bounded_bytes_enc(b);
+    let rem = enc + rest;
+    if b.len() <= 64 {
+        assert(rem[0] == Tok::Bytes(b));
+        assert(rem.skip(1) =~= rest);
+    } else {
+        let ct = chunk_toks(b, 0);
+        assert(enc.len() == ct.len() + 2);
+        assert(rem[0] == indef_bytes_start());
+        assert(rem.subrange(1, 1 + ct.len() as int) =~= ct);
+        assert(rem[1 + ct.len() as int] == Tok::Special(CBORSpecial::Break));
+        lemma_chunks_inverse(b, 0, rem, 1);
+        assert(b.subrange(0, b.len() as int) =~= b);
+        assert(rem.skip(ct.len() as int + 2) =~= rest);
+    }
+}
